@@ -10,7 +10,6 @@ import (
 
 	"github.com/inbucket/inbucket/v3/pkg/config"
 	"github.com/inbucket/inbucket/v3/pkg/storage"
-	"github.com/inbucket/inbucket/v3/pkg/verifhook"
 	"github.com/rs/zerolog/log"
 )
 
@@ -120,7 +119,6 @@ func (s *Server) serve(ctx context.Context) {
 			}
 		} else {
 			tempDelay = 0
-			verifhook.Point("pop3.serve.accepted", "")
 			s.wg.Add(1)
 			go s.startSession(sid, conn)
 		}
